@@ -54,6 +54,10 @@ def ground_int_terms(ts):
                 idx = x.arg(1)
                 if z3.is_int(idx):
                     out[idx.get_id()] = idx
+            elif k == z3.Z3_OP_UNINTERPRETED and x.num_args() > 0:
+                for a in x.children():
+                    if z3.is_int(a) and not z3.is_int_value(a):
+                        out[a.get_id()] = a
             stack.extend(x.children())
     return list(out.values())
 
@@ -84,9 +88,29 @@ def instantiate(h, terms):
         insts = [instantiate(z3.substitute_vars(h.body(), t), terms) for t in terms]
         return z3.And(*insts) if insts else z3.BoolVal(True)
     if z3.is_quantifier(h) and h.is_forall() and h.num_vars() == 1 and h.var_sort(0).kind() == z3.Z3_UNINTERPRETED_SORT:
-        ts = _OTHER.get(h.var_sort(0).name(), [])
+        ts = _OTHER.get(str(h.var_sort(0)), [])
         insts = [z3.substitute_vars(h.body(), t) for t in ts]
         return z3.And(*insts) if insts else z3.BoolVal(True)
+    if z3.is_quantifier(h) and h.is_forall() and h.num_vars() > 1:
+        # axioms over several variables (vector-space identities, projector contracts): all combinations of the ground terms of each sort, capped
+        import itertools
+        cands = []
+        for i in range(h.num_vars()):
+            srt = h.var_sort(i)
+            if srt == z3.IntSort():
+                cands.append(terms[:12])
+            else:
+                cands.append(_OTHER.get(str(srt), [])[:9])
+        size = 1
+        for c in cands:
+            size *= max(len(c), 1)
+        if all(cands) and size <= 1500:
+            insts = []
+            for combo in itertools.product(*cands):
+                # de Bruijn order: variable 0 is the innermost (last declared)
+                insts.append(z3.substitute_vars(h.body(), *reversed(combo)))
+            return z3.And(*insts)
+        return z3.BoolVal(True)
     if z3.is_and(h):
         return z3.And(*[instantiate(c, terms) for c in h.children()])
     if z3.is_implies(h):
@@ -126,8 +150,15 @@ def qf_version(hyps, goal):
     # first pass: Int-indexed invariants; its result supplies the ground terms of the other sorts (array reads at those indices)
     _OTHER.clear()
     hs0 = [instantiate(h, terms) for h in hyps]
-    for srt in {q.var_sort(0) for h in hyps for q in _quants(h) if q.num_vars() == 1 and q.var_sort(0).kind() == z3.Z3_UNINTERPRETED_SORT}:
-        _OTHER[srt.name()] = ground_terms_of_sort(hs0 + [g], srt)
+    sorts = {}
+    for h in hyps:
+        for q in _quants(h):
+            for i in range(q.num_vars()):
+                srt = q.var_sort(i)
+                if srt != z3.IntSort():
+                    sorts[str(srt)] = srt
+    for nm, srt in sorts.items():
+        _OTHER[nm] = ground_terms_of_sort(hs0 + [g], srt)
     hs = [instantiate(h, terms) for h in hyps]
     # the negated goal may still contain existential positions (forall under negation in hypotheses etc.): leave to the solver
     return hs, g
